@@ -230,6 +230,10 @@ def run(ctx: C.Ctx):
     if ctx.only is None or ctx.only >= REACH_OFFSET:
         # third stream: the class that receives the unknown keys is reached through a tagged Union / a TypedDict value / ...
         run_reach(ctx)
+    # the dump side of this property (catch-all items written back at top level / the tag entry) at the level of the generated
+    # code: generator model text == generated source, Lean interpreter of that text == the real result (harness/props/c11_gencode.py)
+    from . import c11_gencode
+    c11_gencode.run(ctx)
 
 
 def run_default(ctx: C.Ctx):
